@@ -1,0 +1,50 @@
+// Copyright (c) 2025 Joegen Baclor
+// SPDX-License-Identifier: MPL-2.0
+//
+// Verification hooks. Everything in this header is compiled only when IORA_VERIF is
+// defined; without the define the macros expand to nothing and no symbol is declared.
+
+#pragma once
+
+#ifdef IORA_VERIF
+
+#include <cstdint>
+#include <functional>
+#include <string>
+
+namespace iora
+{
+namespace verif
+{
+
+/// Called by HttpServer::handleIncomingData with every request it has framed, before the
+/// request is handed to the worker pool.
+inline std::function<void(std::uint64_t sid, const std::string &raw)> httpRequestFramed;
+
+/// Generic observation point: IORA_VERIF_EVENT("tag", a, b).
+inline std::function<void(const char *tag, std::uint64_t a, std::uint64_t b)> event;
+
+/// Generic schedule point: IORA_VERIF_YIELD("tag").
+inline std::function<void(const char *tag)> yield;
+
+} // namespace verif
+} // namespace iora
+
+#define IORA_VERIF_EVENT(tag, a, b)                                                               \
+  do                                                                                              \
+  {                                                                                               \
+    if (::iora::verif::event)                                                                     \
+      ::iora::verif::event((tag), static_cast<std::uint64_t>(a), static_cast<std::uint64_t>(b));  \
+  } while (0)
+#define IORA_VERIF_YIELD(tag)                                                                     \
+  do                                                                                              \
+  {                                                                                               \
+    if (::iora::verif::yield) ::iora::verif::yield((tag));                                        \
+  } while (0)
+
+#else
+
+#define IORA_VERIF_EVENT(tag, a, b) ((void)0)
+#define IORA_VERIF_YIELD(tag) ((void)0)
+
+#endif
